@@ -160,6 +160,40 @@ Theorem C11_cache_reconstruct : forall cfb cfk rs r, rq_reconstruct r = true ->
 Proof. exact c11_cache_reconstruct. Qed.
 Print Assumptions C11_cache_reconstruct.
 
+(* queries are pure in their argument: the caller's array is unchanged, so the same array handed in again
+   (any tree, any k) is the same query; the in-place variant (np.deg2rad(xy, out=xy)) is refuted *)
+Theorem C11_query_repeatable : forall num T g kd s m q rad k kd' k',
+  c11_query num T g kd' s m (c11_arg_after false num s q rad) rad k' = c11_query num T g kd' s m q rad k'
+  /\ (c11_query num T g kd s m q rad k = c11_query num T g kd s m (c11_arg_after false num s q rad) rad k).
+Proof. exact c11_query_repeatable. Qed.
+Print Assumptions C11_query_repeatable.
+
+Theorem C11_arg_inplace_refuted : exists num T g kd s m q k,
+  c11_query num T g kd s m (c11_arg_after true num s q false) false k <> c11_query num T g kd s m q false k.
+Proof. exact c11_arg_inplace_refuted. Qed.
+Print Assumptions C11_arg_inplace_refuted.
+
+(* a grid derived from another (copy / isel / dual) has its own caches: requests on it leave what the
+   handles of the first grid answer unchanged (and vice versa); sharing the wrappers by reference is refuted *)
+Theorem C11_derived_grid_independent : forall cfb cfk rs ops,
+  Forall (fun o => match o with C11OnDerived _ => True | _ => False end) ops ->
+  let sa := c11_run cfb cfk c11_init rs in
+  c11_handles (fst (c11_run2 false cfb cfk sa (c11_derive false sa) ops)) = c11_handles sa.
+Proof. exact c11_derived_independent. Qed.
+Print Assumptions C11_derived_grid_independent.
+
+Theorem C11_original_grid_independent : forall cfb cfk ops sa sb,
+  Forall (fun o => match o with C11OnOriginal _ => True | _ => False end) ops ->
+  snd (c11_run2 false cfb cfk sa sb ops) = sb.
+Proof. exact c11_run2_original_only. Qed.
+Print Assumptions C11_original_grid_independent.
+
+Theorem C11_shared_trees_refuted : exists cf r0 r1,
+  let sa := c11_run cf cf c11_init [r0] in
+  c11_handles (fst (c11_run2 true cf cf sa (c11_derive true sa) [C11OnDerived r1])) <> c11_handles sa.
+Proof. exact c11_shared_trees_refuted. Qed.
+Print Assumptions C11_shared_trees_refuted.
+
 (* the current source (keys regenerated from Grid.get_ball_tree / get_kd_tree, Gen/C11_keys.v):
    decided one way or the other, for both tree types *)
 Theorem C11_cache_current_source : forall t,
